@@ -18,16 +18,16 @@ CHECKS = {
    text="drain-then-Disconnected, Closed-with-hand-back, clone independence, self-closed handles rejecting, idempotent close held on everything generated", note="as C01; cloning an already closed handle is treated as outside the specified domain (DESIGN §9)", ref="DESIGN.md §5 C04"),
  "C05": dict(engine="E3", technique="property-based testing over (program, schedule) pairs: terminating-by-specification producer/consumer programs run under generated schedules with a controlled scheduler; a deadlock verdict (every unfinished thread blocked) is precise, not a timeout",
    text="no generated schedule of any generated terminating program left a thread parked forever; step-budget exhaustion is counted as inconclusive", note="sequentially consistent schedules only; 2-4 threads; timeouts are virtual (a timed park yields once, then the timeout has elapsed); topic mailboxes and oneshot are not routed through the controlled scheduler", ref="DESIGN.md §5 C05"),
- "C06": dict(engine="E2", technique="property-based testing: generated spawn/poll/wake/cancel/re-poll-with-new-waker histories on a harness-owned single-threaded executor with an operational stall oracle (forced poll after every delivered wake was polled) and conservation across cancellations",
+ "C06": dict(engine="E2 (+ topic receive tasks)", technique="property-based testing: generated spawn/poll/wake/cancel/re-poll-with-new-waker histories on a harness-owned single-threaded executor with an operational stall oracle (forced poll after every delivered wake was polled) and conservation across cancellations",
    text="every pending async operation that could complete had been woken, and cancellation lost/duplicated nothing, on every generated history (one open known finding for rendezvous channels)", note="single-threaded; a parked Stream is never abandoned by the harness; closing a handle with its own future pending is not generated; see DESIGN §9", ref="DESIGN.md §5 C06"),
- "C07": dict(engine="E1-broadcast+E3", technique="property-based testing: generated single-sender / multi-receiver histories against a send-log + per-receiver-cursor model; generated schedules for the blocked-sender / dropped-receiver interplay",
+ "C07": dict(engine="E1-broadcast+E2+E3", technique="property-based testing: generated single-sender / multi-receiver histories against a send-log + per-receiver-cursor model; generated schedules for the blocked-sender / dropped-receiver interplay",
    text="every receiver saw exactly the suffix of the send log from its creation point, backpressure matched the slowest live receiver, and no schedule deadlocked, on everything generated", note="sequential model for exact outcomes; E3 checks conservation/order/deadlock only", ref="DESIGN.md §5 C07"),
  "C08": dict(engine="E1-topic", technique="property-based testing: generated subscribe/unsubscribe/clone/close/publish histories against a model of subscription sets and bounded drop-newest mailboxes",
    text="routing by subscription, drop-newest-only-when-full and the disconnect rule held on every generated sequential history", note="publishing never overlaps a subscription change (sequential histories); topic mailboxes use std parking and are not schedulable under E3", ref="DESIGN.md §5 C08"),
  "C09": dict(engine="E1+E2+E3", technique="property-based testing: payloads with observable Drop registered in a per-case registry; generated teardown orders incl. buffered items, wrapped rings, recycled chunks/slabs, pending and cancelled futures, drops racing operations under generated schedules; oracle = every instance dropped exactly once",
    text="no leak and no double drop on every generated history / schedule", note="as C01; double drops are detected by a poisoned-instance marker, use-after-free only where it changes behaviour (valgrind/ASan are not part of the quick tier)", ref="DESIGN.md §5 C09"),
- "C10": dict(engine="E3-locks", technique="property-based testing over (program, schedule) pairs: generated lock/try/async/cancel programs over HybridMutex and HybridRwLock with occupancy counters inside the protected value; deadlock verdict from the controlled scheduler",
-   text="mutual exclusion held and every acquirer terminated under every generated schedule, including after cancelled (possibly already woken) lock futures", note="sequentially consistent schedules; writer starvation is only checked as eventual acquisition (no deadlock) — fairness under an adversarial schedule is not asserted; try_* non-blocking is checked only as absence of deadlock", ref="DESIGN.md §5 C10"),
+ "C10": dict(engine="E2-locks+E3-locks", technique="property-based testing: generated single-threaded histories of async/try acquisitions, releases, cancellations before/after wake, re-polls with new wakers and reader streams (writer-starvation probe) on a harness-owned executor (E2-locks); generated lock/try/async/cancel thread programs over HybridMutex and HybridRwLock under generated schedules with occupancy counters inside the protected value and a deadlock verdict from the controlled scheduler (E3-locks)",
+   text="mutual exclusion held and every acquirer terminated under every generated schedule, including after cancelled (possibly already woken) lock futures", note="sequentially consistent schedules; writer starvation is checked by a deterministic probe (a writer queued behind one reader must get in within 3 generations of overlapping async readers) and as eventual acquisition under schedules, not as a fairness bound under an adversarial scheduler; try_* non-blocking is checked as 'returns, and does not refuse a free lock'", ref="DESIGN.md §5 C10"),
  "C18": dict(engine="iocx E1+E4", technique="property-based testing: generated registration/resolution histories against a (kind, generation) model on global, instance and local containers; generated barrier-aligned thread programs; cross-thread cycle decided in a child process",
    text="singleton-once / transient-fresh / key isolation / latest-wins / cycle-panics held on every generated history and thread program (one open known finding: cross-thread dependency cycle blocks instead of panicking)", note="real-thread cases sample this machine's scheduler (statistical replays); hang verdicts need positive /proc evidence, otherwise inconclusive", ref="DESIGN.md §5 C18"),
 }
